@@ -193,6 +193,39 @@ def check(ctx):
                    message='%s raised by %s is not handled inside the iteration for one '
                            'argument: trash-put aborts with a traceback and the remaining '
                            'arguments are not processed' % (cls, (n.src or '')[:80]))
+    # a constant index into the user's reply needs the reply to be non-empty: Enter alone
+    # is a legitimate answer (IndexError is not modelled as an edge, hence this rule)
+    def from_prompt(t):
+        return contains(t, lambda x: isinstance(x, Call) and x.fn in ('input', 'raw_input'))
+    seen_idx = set()
+    for n in b.nodes():
+        if n.id not in region or n.kind in ('join', 'iteration', 'loop'):
+            continue
+        for v in n.data.values():
+            vals = v if isinstance(v, (list, tuple)) else [v]
+            for t in vals:
+                if not isinstance(t, T):
+                    continue
+                for x in walk(t):
+                    if isinstance(x, Sub) and isinstance(strip(x.index), Const) and \
+                            isinstance(strip(x.index).value, int) and from_prompt(x.base) \
+                            and cid(x) not in seen_idx:
+                        seen_idx.add(cid(x))
+                        base_ids = alt_ids(x.base)
+
+                        def nonempty(c2, p2, _ids=base_ids):
+                            c0 = strip(c2)
+                            if p2 and alt_ids(c0) == _ids:
+                                return True
+                            return p2 and isinstance(c0, Cmp) and c0.op in ('>', '>=', '!=') \
+                                and is_call(strip(c0.left), 'len') and \
+                                alt_ids(strip(c0.left).args[0]) == _ids
+                        ctx.ob('R16.2', 'the reply is indexed only when it is non-empty',
+                               established(b, n.id, nonempty, start=r.arg_iteration), node=n,
+                               message='%s takes a character of the reply by index: an empty '
+                                       'reply (Enter alone, a legitimate "no") raises '
+                                       'IndexError, trash-put aborts and the remaining '
+                                       'arguments are not handled' % short(x, 60))
     for e in sorted(set(exempted)):
         ctx.note('exempt: ' + e)
     # ---- R16.3
